@@ -944,7 +944,6 @@ struct Rec {
     fails: Vec<(String, String, String)>,
     max_call_ms: u128,
     ctx: String,
-    taiko_irregular: bool,
     /// the case (slider time) or the current settings block (sections) is heavy
     heavy: bool,
     /// judgements of the current mania block (`n_objects + n_hold_notes`), 0 elsewhere
@@ -1011,18 +1010,9 @@ impl Rec {
                     "panic".to_owned()
                 };
                 let loc = LAST_PANIC_LOC.lock().map(|g| g.clone()).unwrap_or_default();
-                // narrow classifier of the known taiko finding (class shared with C02/C15): taiko
-                // calculator, first two objects not both hits or < 3 objects, the subtraction
-                // `total_hits - idx` of len() overflows (only with overflow checks)
-                let class = if self.taiko_irregular
-                    && api.starts_with("gradual")
-                    && msg.contains("subtract with overflow")
-                    && loc.contains("taiko/difficulty/gradual.rs")
-                {
-                    "taiko-gradual-first-two-objects"
-                } else {
-                    ""
-                };
+                // (the former class taiko-gradual-first-two-objects — `total_hits - idx` of the taiko
+                // gradual len() overflowing — is fixed in /repo: such a panic is an ordinary failure)
+                let class = "";
                 if self.fails.len() < 8 {
                     self.fails.push((api.to_owned(), class.to_owned(), format!("panic `{msg}` at {loc} [{}]", self.ctx)));
                 }
@@ -1210,7 +1200,6 @@ fn exercise(map: &Beatmap, rng: &mut Rng, domain: Domain, rec: &mut Rec, n_setti
             }
             let mods = settings.mods.build(target);
             rec.ctx = format!("target={} settings={}", mode_name(target), settings.describe());
-            rec.taiko_irregular = false;
             rec.mania_n = 0;
             rec.heavy = slider_heavy;
             let conv = rec.call("convert_ref", || map.convert_ref(gm, &mods).map(Cow::into_owned));
@@ -1223,10 +1212,6 @@ fn exercise(map: &Beatmap, rng: &mut Rng, domain: Domain, rec: &mut Rec, n_setti
                 rec.call("convert", || map.clone().convert(gm, &mods).map(|m| m.hit_objects.len()).ok());
             }
             let Some(Ok(c)) = conv else { continue };
-            if target == 1 {
-                let hits: Vec<bool> = c.hit_objects.iter().map(|h| h.is_circle()).collect();
-                rec.taiko_irregular = !(hits.len() >= 3 && hits[0] && hits[1]);
-            }
             let n = c.hit_objects.len() as u32;
             let d = settings.build(target);
             let rate = rosu_pp::verif::difficulty_clock_rate(&d);
@@ -1428,7 +1413,7 @@ fn child_main(seed: u64, domain: Domain, lo: usize, hi: usize, file: &Path, n_se
         let t0 = Instant::now();
         let case = gen_case(seed, domain, idx);
         let trace = if hi == lo + 1 { out.try_clone().ok() } else { None };
-        let mut rec = Rec { trace, beat: out.try_clone().ok(), last_beat: Instant::now(), cpu_cached: thread_cpu_ms(), cpu_read_at: Instant::now(), apis: BTreeMap::new(), fails: Vec::new(), max_call_ms: 0, ctx: String::new(), taiko_irregular: false, heavy: false, mania_n: 0 };
+        let mut rec = Rec { trace, beat: out.try_clone().ok(), last_beat: Instant::now(), cpu_cached: thread_cpu_ms(), cpu_read_at: Instant::now(), apis: BTreeMap::new(), fails: Vec::new(), max_call_ms: 0, ctx: String::new(), heavy: false, mania_n: 0 };
         rec.ctx = "decode".into();
         let decoded = rec.call("decode", || Beatmap::from_bytes(&case.bytes));
         let mut stage = "decode-panicked";
